@@ -54,6 +54,29 @@ theorem drain_sizes (n fuel : Nat) (p : Bytes) :
       rw [ih]
       simp only [List.length_drop, List.length_cons]
 
+/-- `_send_response` hands the body to the transport in pieces of `c` bytes (`c = 0`: in one piece) -/
+def bodyWrites (c : Nat) (b : Bytes) : List Bytes :=
+  if c = 0 then (if b.isEmpty then [] else [b]) else drain c b.length b
+
+theorem bodyWrites_flatten (c : Nat) (b : Bytes) : (bodyWrites c b).flatten = b := by
+  unfold bodyWrites
+  split
+  · split
+    · rename_i h; have : b = [] := by simpa using h
+      simp [this]
+    · simp
+  · rename_i hc
+    exact drain_complete c (Nat.pos_of_ne_zero hc) b.length b (Nat.le_refl _)
+
+def bodyWriteSizes (c n : Nat) : List Nat :=
+  if c = 0 then (if n = 0 then [] else [n]) else drainSizes c n n
+
+theorem bodyWrites_sizes (c : Nat) (b : Bytes) : (bodyWrites c b).map List.length = bodyWriteSizes c b.length := by
+  unfold bodyWrites bodyWriteSizes
+  split
+  · cases b <;> simp
+  · exact drain_sizes c b.length b
+
 structure Engine where
   accept : Nat → Nat
   enc : Bytes → Bytes
